@@ -135,8 +135,7 @@ def run_case(spec):
         jv = {}
         for c in spec0["comps"]:
             if c.get("kind") == "junc" and c.get("init"):
-                jv[c["name"]] = c.pop("init")
-                c["default"] = 0
+                jv[c["name"]] = c.pop("init")  # no databook entry and no default: the junction plays no part in the databook initialisation
         w0, r0 = run_spec(spec0)
         ps = sc.dcp(w0.parset)
         ps.set_initialization(r0, float(r0.model.t[0]))
